@@ -213,3 +213,20 @@ func (o *Oracle) ValuationString() string {
 	sort.Strings(ks)
 	return strings.Join(ks, " ")
 }
+
+// Peek reads already-materialised fields without consulting the oracle (nil if absent).
+func (o *Obj) Peek(names ...string) Value {
+	var cur Value = o
+	for _, n := range names {
+		ob, ok := cur.(*Obj)
+		if !ok {
+			return nil
+		}
+		v, ok := ob.Fields[n]
+		if !ok {
+			return nil
+		}
+		cur = v
+	}
+	return cur
+}
